@@ -24,7 +24,7 @@ RULE = ("K-inject: every (axis, direction) of UniformPlaneSource (thorough: also
         "polarisation pairs. Oracle (property scenario, thresholds as stated): 3x3 periodic cross-section, 10-cell PML "
         "along the axis, >= 15 cells per wavelength, diagonal polarisation, PoyntingFluxDetector planes behind and in "
         "front, CW and pulse: time-integrated backward/forward power < 1e-3; quick: 2 of the 6 direction cases from the "
-        "seed; thorough: all six x {CW, pulse} and GaussianPlaneSource (radius >= 0.3 wavelength) < 10 %. "
+        "seed; thorough: all six x {CW, pulse} and GaussianPlaneSource (CW, radius 0.3..0.8 wavelengths, open space: PML on all faces, planes 10 cells away) < 10 %. "
         "non-trivial = every case (source on, non-zero increments).")
 
 C0 = 299792458.0
@@ -63,7 +63,7 @@ def build_plane_scene(c, time_steps=30, detectors=None, pml=2, spacing=50e-9, wa
     j = Y.J()
     f, jnp, jax = j["fdtdx"], j["jnp"], j["jax"]
     ax = c["axis"]
-    faces = {k: "periodic" for k in Y.FACES}
+    faces = {k: ("pml" if c.get("transverse") == "pml" else "periodic") for k in Y.FACES}
     lo, hi = {"none": ("none", "none"), "pml": ("pml", "pml"), "mixed": ("pml", "none")}[c["along"]]
     faces[Y.FACES[2 * ax]], faces[Y.FACES[2 * ax + 1]] = lo, hi
 
@@ -373,7 +373,7 @@ def gen_oracle(rng, axis, direction, profile, kind="uniform"):
     if kind == "gauss":
         c["eps_r"] = 1.0
         c["radius_wl"] = rng.choice([0.3, 0.35, 0.45, 0.8])
-        c["gap"] = 10      # planes a good half wavelength away from the (strongly sub-wavelength, std = r/3) spot
+        c["gap"] = 10      # planes a good half wavelength away from the (sub-wavelength, std = r/3) spot
     return c
 
 
@@ -390,8 +390,10 @@ def oracle_ratio(c):
     if c["kind"] == "uniform":
         tr = (3, 3)
     else:
+        # a Gaussian beam in open space: PML on the transverse faces too (a transversally periodic box whose period is
+        # close to one wavelength turns the beam into a grating at its Rayleigh anomaly: 18 % backward at period 1.05 lambda)
         r_cells = c["radius_wl"] * cpw
-        m = int(2 * np.ceil(r_cells) + 3)
+        m = int(2 * np.ceil(r_cells) + 3) + 2 * (pml + 3)
         tr = (m, m + 1)
     shape = [0, 0, 0]
     shape[ax] = n_ax
@@ -400,6 +402,7 @@ def oracle_ratio(c):
     cc = dict(c, shape=shape, k0=k0, pulse_width_factor=4)
     if c["kind"] == "gauss":
         cc["radius_cells"] = c["radius_wl"] * cpw
+        cc["transverse"] = "pml"
     lo_pos, hi_pos = k0 - gap, k0 + gap
     front, back = (hi_pos, lo_pos) if c["direction"] == "+" else (lo_pos, hi_pos)
     opp = "-" if c["direction"] == "+" else "+"
